@@ -23,9 +23,20 @@ def make_case(w, e, slots=()):
     return {"world": w, "expr": e, "slots": list(slots)}
 
 
+def world_cache(w):
+    """renderings of a world are shared by all cases over it"""
+    c = getattr(w, "_render_cache", None)
+    if c is None:
+        c = {"rq": cedar.request_json(w.request), "re": cedar.entities_json(w.entities),
+             "mq": cedar.request_sx(w.request), "me": cedar.entities_sx(w.entities)}
+        w._render_cache = c
+    return c
+
+
 def rust_cmds(case):
     w, e = case["world"], case["expr"]
-    base = {"cmd": "eval", "request": cedar.request_json(w.request), "entities": cedar.entities_json(w.entities),
+    wc = world_cache(w)
+    base = {"cmd": "eval", "request": wc["rq"], "entities": wc["re"],
             "slots": {"?" + k: cedar.uid_json(u) for k, u in case["slots"]}}
     cmds = []
     try:
@@ -38,8 +49,8 @@ def rust_cmds(case):
 
 def model_cmd(case):
     w, e = case["world"], case["expr"]
-    return [Sym("eval"), cedar.slots_sx(case["slots"]), cedar.request_sx(w.request),
-            cedar.entities_sx(w.entities), cedar.expr_sx(e)]
+    wc = world_cache(w)
+    return [Sym("eval"), cedar.slots_sx(case["slots"]), wc["mq"], wc["me"], cedar.expr_sx(e)]
 
 
 def generate(rng, n, depth):
@@ -57,14 +68,108 @@ def generate(rng, n, depth):
     return cases
 
 
+def L(z):
+    return ("lit", ("long", z))
+
+
+def S(x):
+    return ("lit", ("string", x))
+
+
+def B(b):
+    return ("lit", ("bool", b))
+
+
+def systematic(rng, tier):
+    """exhaustive small-scope streams: operator x operand-kind table, short-circuit matrix,
+       boundary arithmetic, like patterns, set algebra"""
+    from cedar import U, I64_MAX, I64_MIN
+    w = gen.World(rng, n_entities=6)
+    present = [e["uid"] for e in w.entities]
+    pu = present[0] if present else w.uids[0]
+    absent = U(("User",), "ghost")
+    dec = ("ext", "decimal", [S("1.5")])
+    operands = {
+        "bool": B(True), "long": L(3), "string": S("ab"), "entity": ("lit", ("entity", pu)),
+        "absent": ("lit", ("entity", absent)), "set_lits": ("set", [L(1), L(3), L(1)]),
+        "set_nonlit": ("set", [("record", [("a", L(1))]), dec, L(3)]), "empty": ("set", []),
+        "set_ents": ("set", [("lit", ("entity", pu)), ("lit", ("entity", absent))]),
+        "record": ("record", [("a", L(1)), ("n", S("x"))]), "ext": dec,
+        "err": ("getattr", ("var", "context"), "missing"),
+        "var": ("var", "principal"), "ctx": ("var", "context"),
+    }
+    out = []
+    ks = list(operands)
+    for op in ["eq", "less", "lesseq", "add", "sub", "mul", "in", "contains", "containsAll", "containsAny", "getTag", "hasTag"]:
+        for a in ks:
+            for b in ks:
+                out.append(("binop", op, operands[a], operands[b]))
+    for op in ["not", "neg", "isEmpty"]:
+        for a in ks:
+            out.append(("unop", op, operands[a]))
+    for a in ks:
+        for attr in ["a", "n", "zz", "if"]:
+            out.append(("getattr", operands[a], attr))
+            out.append(("hasattr", operands[a], attr))
+        out.append(("like", operands[a], ["a", ("*",)]))
+        out.append(("is", operands[a], ("User",)))
+        for fn in ["decimal", "lessThan", "greaterThanOrEqual"]:
+            out.append(("ext", fn, [operands[a]]))
+            out.append(("ext", fn, [operands[a], dec]))
+        out.append(("ext", "lessThan", [dec, operands[a]]))
+    # short-circuit matrix
+    outcomes = [B(True), B(False), L(1), S("x"), operands["err"],
+                ("binop", "add", L(I64_MAX), L(1)), ("binop", "add", L(1), S("a")),
+                ("getattr", operands["absent"], "n"), ("ext", "decimal", [S("x")])]
+    for a in outcomes:
+        for b in outcomes:
+            out.append(("and", a, b))
+            out.append(("or", a, b))
+            for c in outcomes[:5]:
+                out.append(("if", a, b, c))
+    # boundary arithmetic and comparisons
+    bl = gen.BOUNDARY_LONGS
+    for x in bl:
+        out.append(("unop", "neg", L(x)))
+        for y in bl:
+            for op in ["add", "sub", "mul", "less", "lesseq", "eq"]:
+                out.append(("binop", op, L(x), L(y)))
+    # like: all patterns over {a, b, wildcard, literal star} up to length 3 (4 thorough) x strings up to length 3 (4)
+    import itertools
+    alpha = ["a", "b", ("*",), "*"]
+    pl, sl_ = (3, 3) if tier == "quick" else (4, 5)
+    strings = ["".join(t) for n in range(sl_ + 1) for t in itertools.product("ab*", repeat=n)]
+    if tier == "quick":
+        strings = [x for x in strings if len(x) <= 3]
+    for n in range(pl + 1):
+        for pat in itertools.product(alpha, repeat=n):
+            for st in (strings if tier != "quick" else rng.sample(strings, min(len(strings), 12))):
+                out.append(("like", S(st), list(pat)))
+    out.append(("like", S("\U0001F600x"), ["\U0001F600", ("*",)]))
+    # set algebra over a mixed universe
+    uni = [L(1), L(2), S("a"), ("lit", ("entity", pu)), ("record", [("a", L(1))]), ("record", [("a", L(2))]), dec,
+           ("ext", "decimal", [S("1.50")]), ("set", [L(1)]), ("set", [])]
+    subsets = [list(c) for n in range(0, 3) for c in itertools.combinations(uni, n)]
+    pairs = [(a, b) for a in subsets for b in subsets]
+    if tier == "quick":
+        pairs = rng.sample(pairs, 500)
+    for a, b in pairs:
+        for op in ["eq", "containsAll", "containsAny"]:
+            out.append(("binop", op, ("set", a), ("set", list(reversed(b)) + b[:1])))
+    for a in subsets:
+        for x in uni:
+            out.append(("binop", "contains", ("set", a), x))
+    return [make_case(w, e, [("principal", pu), ("resource", absent)]) for e in out]
+
+
 def describe(case):
     try:
         t = cedar.expr_text(case["expr"])
     except cedar.NotExpressible:
         t = None
     return {"expr_text": t, "expr_est": cedar.expr_est(case["expr"]),
-            "request": cedar.request_json(case["world"].request),
-            "entities": cedar.entities_json(case["world"].entities),
+            "request": world_cache(case["world"])["rq"],
+            "entities": world_cache(case["world"])["re"],
             "slots": {"?" + k: cedar.uid_json(u) for k, u in case["slots"]}}
 
 
@@ -75,7 +180,10 @@ def run_cases(rep, cases, harness, driver):
             rcmds.append(cmd)
             owner.append(i)
     rres = fw.run_rust(harness, rcmds)
-    mres = fw.run_model(driver, [model_cmd(c) for c in cases])
+    mcmds = [model_cmd(c) for c in cases]
+    import sx as _sx
+    mcmd_txt = [hash(_sx.dump(m[4])) ^ hash(_sx.dump(m[1])) for m in mcmds]
+    mres = fw.run_model(driver, mcmds)
     stats = {"ok": 0, "err": {}, "routes": {"text": 0, "est": 0}, "mismatch": 0, "parse_error": 0}
     distinct = set()
     nviol = 0
@@ -103,7 +211,7 @@ def run_cases(rep, cases, harness, driver):
             stats["ok"] += 1
         else:
             stats["err"][m[1]] = stats["err"].get(m[1], 0) + 1
-        distinct.add(fw.case_hash(describe(cases[i])))
+        distinct.add((id(cases[i]["world"]), mcmd_txt[i]))
     return stats, distinct, nviol
 
 
@@ -118,7 +226,8 @@ def run(rep, tier, seed):
     rng = random.Random(seed)
     n = 3000 if tier == "quick" else 60000
     depth = 5 if tier == "quick" else 7
-    cases = generate(rng, n, depth)
+    sysc = systematic(rng, tier)
+    cases = sysc + generate(rng, n, depth)
     stats, distinct, nviol = run_cases(rep, cases, harness, driver)
     ops = {}
     for c in cases:
@@ -132,12 +241,13 @@ def run(rep, tier, seed):
         "obligations": ob, "discharged": dis, "checker_cmd": "make -C coq props/%s.vo (coqc 8.16.1) + Print Assumptions" % PROP_FILE,
         "trusted_base": fw.TRUSTED_BASE, "theorems": details,
         "evaluations": len(cases), "distinct_nontrivial": len(distinct),
-        "rule": "type-directed random expressions (depth<=%d) over random worlds; distinct by hash of (expr, request, entities, slots); every case is sent to the implementation as Cedar text and as EST JSON" % depth,
+        "rule": "exhaustive small-scope streams (operator x operand-kind table, short-circuit matrix, boundary arithmetic on 16 longs, like patterns over {a,b,*,\\*}, set algebra over a mixed universe) + type-directed random expressions (depth<=%d) over random worlds; distinct by hash of (expr, request, entities, slots); every case is sent to the implementation as Cedar text and as EST JSON" % depth,
         "traces_validated_against_impl": sum(stats["routes"].values()),
         "vm_compute_crosscheck_cases": nx,
         "outcome_histogram": {"ok": stats["ok"], "errors": stats["err"]},
         "operator_histogram": ops,
-        "samples": [describe(c) for c in cases[:3]],
+        "systematic_cases": len(sysc),
+        "samples": [describe(c) for c in (cases[:2] + cases[-2:])],
     }
     rep.assumptions = ["Unknown-free expressions; nesting depth <= 48", "error messages/locations not compared"]
 
